@@ -532,7 +532,7 @@ def asraggedarray(path, arrayiterable, dtype=None, metadata=None,
     bd._write_jsondict(filename=RaggedArray._arraydescrfilename,
                        d=datainfo, overwrite=overwrite)
     metadatapath = path.joinpath(Array._metadatafilename)
-    if metadata is not None:
+    if (metadata is not None) and (metadata != {}):
         bd._write_jsondict(filename=Array._metadatafilename,
                            d=metadata, overwrite=overwrite)
     elif metadatapath.exists():  # no metadata but file exists, remove it
